@@ -64,6 +64,21 @@ def corpus():
                  ['strm', '2 DETACHED 1 example.com:80 REASON=TIMEOUT', [], None], ['circ', '1 CLOSED %s PURPOSE=GENERAL REASON=FINISHED' % r1, []],
                  ['circ', '1 LAUNCHED PURPOSE=GENERAL', []], ['circ', '1 BUILT %s PURPOSE=GENERAL' % r2, []], ['strm', '2 SENTCONNECT 1 example.com:80', [], None],
                  ['strm', '2 SUCCEEDED 1 example.com:80', [], None], ['strm', '2 CLOSED 1 example.com:80 REASON=DONE', [], None]]},
+        # streams first seen in the snapshot in states that carry no target (SENTCONNECT, REMAP) on circuits that close or fail
+        # under them — one of the targets an onion address; then the streams end
+        {'snap_c': ['4 BUILT %s,%s PURPOSE=GENERAL' % (r1, r2), '5 BUILT %s PURPOSE=GENERAL' % r3], 'pre': [],
+         'snap_s': ['7 SENTCONNECT 4 example.com:80', '9 REMAP 5 timaq4ygg2iegci7.onion:80', '11 SENTRESOLVE 4 foo.onion:0'],
+         'ops': [['circ', '4 CLOSED %s,%s PURPOSE=GENERAL REASON=FINISHED' % (r1, r2), []], ['circ', '5 FAILED %s PURPOSE=GENERAL REASON=DESTROYED REMOTE_REASON=FINISHED' % r3, []],
+                 ['strm', '7 FAILED 4 example.com:80 REASON=TIMEOUT', [], None], ['strm', '9 CLOSED 5 timaq4ygg2iegci7.onion:80 REASON=DONE', [], None],
+                 ['strm', '11 DETACHED 4 foo.onion:0 REASON=END', [], None]]},
+        # application listeners, a wait for BUILT and a close request on a circuit that fails before it is built (what the
+        # application hears, and in which order relative to TorState's own bookkeeping)
+        {'snap_c': [], 'snap_s': [], 'pre': [['acl', 1], ['asl', 2]],
+         'ops': [['circ', '5 LAUNCHED PURPOSE=GENERAL', []], ['wb', 0], ['wc', 0], ['acl', 3], ['circ', '5 EXTENDED %s PURPOSE=GENERAL' % r1, []],
+                 ['circ', '5 FAILED %s PURPOSE=GENERAL REASON=TIMEOUT' % r1, [1]], ['circ', '6 LAUNCHED PURPOSE=GENERAL', []], ['wb', 1],
+                 ['circ', '6 BUILT %s PURPOSE=GENERAL' % r2, []], ['strm', '3 NEW 0 example.com:80 SOURCE_ADDR=127.0.0.1:5001 PURPOSE=USER', [], None],
+                 ['strm', '3 SENTCONNECT 6 example.com:80', [2], None], ['circ', '6 CLOSED %s PURPOSE=GENERAL REASON=FINISHED' % r2, []],
+                 ['strm', '3 CLOSED 6 example.com:80 REASON=DONE', [], None]]},
     ]
 
 
